@@ -302,6 +302,49 @@ def t_module_state(h):
     h.prove(True, 'module-state.every-written-module-level-object-on-the-session-path-is-in-the-inventory', {'inventory': len(K.MODULE_STATE)})
 
 
+RANDOM_ATTRS = ('id', 'trade_id', 'session_id')
+
+
+def t_random_ids(h):
+    """the ids jesse gives to orders, positions and trades are random per session (jh.generate_unique_id): on the session path they may be
+    copied and compared for equality, but never order anything - no sort / min / max key and no <, <=, >, >= comparison reads one"""
+    import glob
+    root = h.repo.root
+    bad = []
+
+    def reads_id(node):
+        return [n for n in ast.walk(node) if isinstance(n, ast.Attribute) and n.attr in RANDOM_ATTRS and isinstance(n.ctx, ast.Load)]
+    n_sites = 0
+    for pat in SESSION_PATH:
+        for path in sorted(glob.glob(os.path.join(root, pat))):
+            try:
+                tree = ast.parse(open(path, encoding='utf-8').read())
+            except SyntaxError:
+                continue
+            rel = os.path.relpath(path, root)
+            keyfns = {}
+            for fn in ast.walk(tree):
+                if isinstance(fn, (ast.FunctionDef, ast.Lambda)):
+                    keyfns[getattr(fn, 'name', None)] = fn
+            for n in ast.walk(tree):
+                if isinstance(n, ast.Call):
+                    nm = n.func.id if isinstance(n.func, ast.Name) else n.func.attr if isinstance(n.func, ast.Attribute) else None
+                    if nm in ('sorted', 'sort', 'min', 'max', 'argsort', 'heappush', 'nsmallest', 'nlargest', 'sort_by', 'order_by'):
+                        n_sites += 1
+                        parts = list(n.args[1:] if nm == 'sorted' else n.args) + [k.value for k in n.keywords]
+                        for part in parts:
+                            if isinstance(part, ast.Name) and part.id in keyfns:
+                                part = keyfns[part.id]
+                            if reads_id(part):
+                                bad.append(f'{rel}:{n.lineno} {nm}(...) reads a random id in its key')
+                if isinstance(n, ast.Compare) and any(isinstance(o, (ast.Lt, ast.LtE, ast.Gt, ast.GtE)) for o in n.ops):
+                    n_sites += 1
+                    if any(reads_id(x) for x in [n.left] + n.comparators):
+                        bad.append(f'{rel}:{n.lineno} ordering comparison on a random id')
+    h.prove(n_sites > 0, 'random-ids.scan-saw-ordering-sites', {'sites': n_sites})
+    h.prove(not bad, 'random-ids.session-random-ids-never-order-anything-on-the-session-path', {'sites': bad, 'scanned': n_sites})
+
+
 def t_router(h):
     """two sessions with the same route arguments: RouterClass.initiate installs them and leaves the caller's lists alone"""
     calls = []
@@ -481,6 +524,7 @@ def tasks(tier):
           Task('state-classes', t_state_classes, extra=dict(x)),
           Task('router', t_router, extra=dict(x), overrides=dict(ov)),
           Task('module-state', t_module_state, extra=dict(x)),
+          Task('random-ids', t_random_ids, extra=dict(x)),
           Task('prologue.warmup', t_prologue(True), extra=dict(x), overrides=dict(ov)),
           Task('prologue.nowarmup', t_prologue(False), extra=dict(x), overrides=dict(ov)),
           Task('drivers', t_drivers, extra=dict(x), overrides=dict(ov)),
